@@ -50,7 +50,15 @@ import (
 	"github.com/trzsz/trzsz-go/trzsz"
 )
 
-func init() { groups["e2e-tmux"] = genTmuxE2E }
+func init() {
+	groups["e2e-tmux"] = func(c *ctx) { genTmuxE2E(c, func(s *tmxScn) bool { return true }) }
+	// the relay inside tmux only (C13, C14)
+	groups["e2e-tmux-relay"] = func(c *ctx) { genTmuxE2E(c, func(s *tmxScn) bool { return s.topo == "relay" }) }
+	// progress lines in panes narrower than the terminal and in control mode (C20)
+	groups["e2e-tmux-pane"] = func(c *ctx) {
+		genTmuxE2E(c, func(s *tmxScn) bool { return s.narrow > 0 || s.name == "c-up" || s.name == "n-up-small" })
+	}
+}
 
 // ---------------------------------------------------------------------------------------
 // a private tmux server
@@ -681,9 +689,12 @@ func (r *tmxRunner) transfer(x tmxXfer) *tmxXferResult {
 			res.siDuring = r.fmtq("#{status-interval}")
 			r.srv.run("new-window", "-d", "-t", "main", "sh")
 			r.srv.run("kill-pane", "-t", r.pane)
-			time.Sleep(300 * time.Millisecond)
-			out, _ := r.srv.run("display-message", "-p", "-t", "main", "#{status-interval}")
-			res.siAfter = strings.TrimSpace(out)
+			// a server that handles the hang-up needs its cleaning time (500 ms of silence) before it restores the option
+			tmxWait(2500*time.Millisecond, 100*time.Millisecond, func() bool {
+				out, _ := r.srv.run("display-message", "-p", "-t", "main", "#{status-interval}")
+				res.siAfter = strings.TrimSpace(out)
+				return res.siAfter == res.siBefore
+			})
 			if f := cl.filter.Load(); f != nil {
 				f.StopTransferringFiles(false)
 			}
@@ -988,7 +999,7 @@ func tmxScenarios(c *ctx) []*tmxScn {
 	return out
 }
 
-func genTmuxE2E(c *ctx) {
+func genTmuxE2E(c *ctx, want func(*tmxScn) bool) {
 	root, err := os.MkdirTemp("", "tmx_")
 	if err != nil {
 		c.count("note:tmux-unavailable:no-tmpdir")
@@ -999,7 +1010,12 @@ func genTmuxE2E(c *ctx) {
 		c.count("note:tmux-unavailable:" + why)
 		return
 	}
-	scns := tmxScenarios(c)
+	var scns []*tmxScn
+	for _, s := range tmxScenarios(c) {
+		if want(s) {
+			scns = append(scns, s)
+		}
+	}
 	if only := os.Getenv("TMX_ONLY"); only != "" {
 		var keep []*tmxScn
 		for _, s := range scns {
